@@ -37,14 +37,18 @@ def deco(fn):
 
 def deco2(fn):
     def decorate(context, *args, **kw):
-        context.write("(E" + str(len(args)))
+        context.write("(E")
         r = fn(*args, **kw)
         context.write(")")
         return r
     return decorate
 
 
-IMPORTS = ["from vf.gen.tenv import deco, deco2"]
+def fb(s):
+    return "b[" + str(s) + "]"
+
+
+IMPORTS = ["from vf.gen.tenv import deco, deco2, fb"]
 
 
 def make_ctx():
@@ -67,7 +71,7 @@ def make_ctx():
         "cs": "S", "cn": 3, "cl": ["p", "q", "r"], "ce": [], "cd": {"k": "v"}, "ct": (("a", 1), ("b", 2)),
         "gen": gen, "rec": rec, "boom": boom, "showlog": showlog, "Boom": Boom, "Boom2": Boom2,
         "deco": deco, "deco2": deco2,
-        "fa": lambda s: "a(" + str(s) + ")", "fb": lambda s: "b[" + str(s) + "]", "up": lambda s: str(s).upper(),
+        "fa": lambda s: "a(" + str(s) + ")", "fb": fb, "up": lambda s: str(s).upper(),
     }
 
 
